@@ -80,6 +80,10 @@ Definition spec_c (c : ccase) : bool :=
          | None => true
          | Some ob2 => complete_ok c ob2 && causal_ok ob2 && same_sequence ob ob2
          end
+      && match c_unrolled c with                    (* the unrolled listing, where observed, is causal too *)
+         | None => true
+         | Some ob3 => causal_ok ob3
+         end
   end.
 
 (* A chain of n operations on one qubit, each implicitly FOLLOWED_BY the previous one (relation depth n-1): only the NUMBER of
